@@ -142,10 +142,10 @@ PROPS['C16'] = {
     'recheck': 40,
     'rule': ("one evaluation = one seeded scene of 2-4 (thorough: -6) real pthreads, each with an explicit list of 10-25 (-40) operations (composites through fast paths and the general "
              "path, fills, fill_boxes, trapezoids, triangles, glyph runs, region algebra, private setters) on thread-private destinations, regions and glyph caches; four source "
-             "images are shared read-only after a first use on the main thread; and one explicit schedule: at every scheduling point (API boundary, hooks H2/H3 around the fast "
+             "images (one in ten a yuy2/yv12 one) and the main thread's regions (one in six the broken region) are shared read-only after a first use on the main thread; and one explicit schedule: at every scheduling point (API boundary, hooks H2/H3 around the fast "
              "path cache and in _pixman_image_validate, every k-th accessor callback) a decision 'stay' or 'switch to runnable thread j'.  Exactly one thread runs at a time "
              "(futex baton).  Checked: alone = together for every thread, the access ledger of the hooked sites, and (second pass) ThreadSanitizer, to which the baton is "
-             "invisible.  Non-trivial = at least 2 context switches taken; distinct = distinct realised interleavings (hash of the (point, from, to) sequence)"),
+             "invisible; that pass runs every 20 scenarios in a freshly forked process so that lazily initialised process-wide state is met cold.  Non-trivial = at least 2 context switches taken; distinct = distinct realised interleavings (hash of the (point, from, to) sequence)"),
     'real_vs_stub': {'real': IMG_REAL + ['real pthreads; real thread-local dispatch cache'],
                      'stub_or_simulated': ['thread scheduler (seeded baton: who runs is never left to the OS)', 'pixel storage from the simulator arena', 'accessor callbacks']},
     'assumptions': COMMON_ASSUME + ["code between two scheduling points runs atomically in the serialised schedule; the TSan pass covers race DETECTION at every instrumented access, but result corruption that needs a switch at an un-hooked instruction is out of reach",
